@@ -219,6 +219,9 @@ func initTopicFnd(t *Topic, sreg *ClientComMessage) error {
 	// Publishing to fnd is not supported
 	// t.lastId = 0, t.delId = 0, t.touched = nil
 
+	// Initialize channel for receiving session online updates.
+	t.supd = make(chan *sessionUpdate, 32)
+
 	return nil
 }
 
